@@ -14,6 +14,7 @@ import (
 	"net/http"
 	"os"
 	"path/filepath"
+	"runtime"
 	"sync"
 	"time"
 
@@ -21,6 +22,7 @@ import (
 	"github.com/nuetzliches/hookaido/internal/config"
 	"github.com/nuetzliches/hookaido/internal/dispatcher"
 	"github.com/nuetzliches/hookaido/internal/queue"
+	"github.com/nuetzliches/hookaido/internal/verifkit/vnet"
 )
 
 type VerifBootOptions struct {
@@ -173,6 +175,23 @@ func (a *VerifApp) Shutdown() {
 	defer cancel()
 	for _, s := range a.Servers {
 		_ = s.Shutdown(ctx)
+	}
+	// A server goroutine that had not reached Serve yet closes its listener only when it runs: wait until every
+	// in-memory address of this instance is free again, so that the next boot can listen on it.
+	addrs := []string{a.Running.Ingress.Listen, a.Running.PullAPI.Listen, a.Running.AdminAPI.Listen, a.Running.PullAPI.GRPCListen, a.Running.Observability.Metrics.Listen}
+	for i := 0; i < 1000000; i++ {
+		busy := false
+		for _, l := range vnet.Listening() {
+			for _, x := range addrs {
+				if x != "" && l == x {
+					busy = true
+				}
+			}
+		}
+		if !busy {
+			break
+		}
+		runtime.Gosched()
 	}
 	if a.closeStore != nil {
 		_ = a.closeStore()
